@@ -87,6 +87,15 @@ Theorem C11_no_abort_seq le c h0 blocks t0 h :
   Forall not_abort (snd (run le t0 h)).
 Proof. exact (no_abort_seq le c h0 blocks t0 h). Qed.
 
+(* ... and when the tower is bootstrapped at least 5 blocks above its window (teosd refuses to start below
+   height 100 with a window of 100 blocks) the OConnect clause of the envelope holds by itself: only
+   registrations are constrained (in_envelope_reg = in_envelope without the OConnect clause). *)
+Theorem C11_no_abort_seq_deep le c h0 blocks t0 h :
+  init c h0 blocks = Some t0 -> NoDup (map fst blocks) -> N.of_nat (length blocks) + 5 <= h0 ->
+  in_envelope_reg le t0 h = true -> chain_disciplined le t0 h = true ->
+  Forall not_abort (snd (run le t0 h)).
+Proof. exact (no_abort_seq_deep le c h0 blocks t0 h). Qed.
+
 Theorem C11_big_inv_reachable le c h0 blocks t0 h :
   init c h0 blocks = Some t0 -> NoDup (map fst blocks) -> N.of_nat (length blocks) <= h0 ->
   in_envelope le t0 h = true -> chain_disciplined le t0 h = true ->
@@ -212,6 +221,7 @@ Print Assumptions C11_step_never_aborts.
 Print Assumptions C11_big_inv_step.
 Print Assumptions C11_big_inv_bootstrap.
 Print Assumptions C11_no_abort_seq.
+Print Assumptions C11_no_abort_seq_deep.
 Print Assumptions C11_big_inv_reachable.
 Print Assumptions C11_no_poison.
 Print Assumptions C11_run_no_abort_complete.
